@@ -3,6 +3,7 @@ CONSTANTS
   MaxLines = 6
   Modes = {"independent", "cumulative"}
   MaxNext = 5
+  MaxSep = 1
   LineKinds = {"c", "m"}
   Flags = {}
 INVARIANT Lossless
